@@ -24,6 +24,72 @@ CLAIMS = {
         ref='DESIGN.md section 3 / C01'),
 }
 
+
+def _claim(pid, decided, notdecided, technique, extra_note=''):
+    CLAIMS[pid] = dict(
+        text="static analysis: " + decided + " Not decided (runtime-quantified): " + notdecided,
+        note=TRUST + extra_note,
+        technique=technique,
+        ref='DESIGN.md section 3 / ' + pid)
+
+
+_claim('C03',
+       "C03.R1 residual invariant for the layer loops of sift, mask_sift, complete_ensemble_sift; C03.R2 the cap reaches "
+       "the extraction only in length positions; C03.R3 affine counter relation of every cap guard simulated for cap=1..8 "
+       "(columns <= cap, guard reachable, guard stops the loop); C03.R4 member column indexing bounded by the smallest "
+       "member; C03.R5 second-layer loop range and ** of a dict; C03.R6 canonicalisation of the signal.",
+       "finiteness of outputs for finite inputs.",
+       "path-sensitive abstract interpretation + polynomial normal forms + affine counter model")
+_claim('C04',
+       "C04.R1 iterate algebra (returned IMF = iterate - (U+L)/2, update = iterate - step*(U+L)/2, envelopes of the "
+       "current iterate with identical options); C04.R2 stop dispatch table with argument binding; C04.R3 stop "
+       "predicates in boolean normal form vs. documented criteria; C04.R4 counter +1 per iteration, limit guard with "
+       "raise before every increment, only licensed loop exits; C04.R5 cleared flag => unmodified input; C04.R6 energy "
+       "stop predicate and operands.",
+       "convergence speed; progress of the re-padding loop of get_padded_extrema (trusted np.pad).",
+       "path-sensitive abstract interpretation (loop peeling + widening) + polynomial / boolean normal forms")
+_claim('C06',
+       "C06.R1 every option carrier is bound from caller to callee at every call / partial / pool dispatch on every "
+       "evaluated path, down to the stage it configures (positional starmap tuples included); C06.R2 carriers are only "
+       "replaced by the defaulting idiom with signature-equal literals; C06.R3 configuration keys are formals and do "
+       "not collide at ** sites.",
+       "how much an option changes the numbers.",
+       "resolved call graph + argument binding (keyword, positional, **, functools.partial, starmap tuples) on evaluated paths")
+_claim('C08',
+       "C08.R1 no draw from the inherited process-global RNG is reachable in a pool worker under the arguments bound at "
+       "its dispatch site, and bound noise is a per-member column of a parent-side matrix; C08.R2 member algebra "
+       "(single / flip with the same draw and identical options) and per-IMF mean over members; C08.R3 zero noise level "
+       "folds every member to sift(X, same options).",
+       "statistical independence of the realisations beyond 'distinct draws'.",
+       "effect analysis of worker cones under dispatch-site bindings + linear forms (RNG draws are fresh atoms)",
+       "Assumes Pool.starmap binds tuples positionally and returns results in submission order.")
+_claim('C12',
+       "C12.R1 the boundary list is decoded to [0] ++ wraps ++ [N] on every feasible path (affine forms over N, wrap "
+       "positions in [1, N-1] strictly increasing), consumed as half-open slices B[j]:B[j+1], every slice non-empty; "
+       "C12.R2 wraps unfiltered, strict threshold; C12.R3 per-column label counter; C12.R4 wrap-free early exit.",
+       "nothing numerical is involved; the behaviour of np.where/np.diff/np.r_ is trusted.",
+       "path-sensitive abstract interpretation + affine index ranges")
+_claim('C13',
+       "C13.R1 each criterion of is_good in boolean/comparison normal form vs. the documented one; C13.R2 a segment is "
+       "labelled only under all(is_good(that slice, caller's phase_edge)) after the mask veto on the same slice, "
+       "return_good=False substitutes an all-true vector; C13.R3 the container forwards its tolerance to the stored "
+       "criteria function.",
+       "that the slice looked at is the whole wrap-to-wrap segment is C12.R1.",
+       "boolean normal forms + path conditions of the labelling store + argument binding")
+_claim('C18',
+       "C18.R1 the default configuration is reconstructed symbolically from get_config and compared with variant "
+       "formals, stage formals, explicit keywords at ** sites and fallback literals; C18.R2 accessor arity tables of "
+       "get/set/del agree with nesting depth; C18.R3 abstract YAML document shape of each writer vs. its reader; "
+       "C18.R4 export does not mutate the live store (alias/mutation analysis).",
+       "behaviour of the callable returned by get_func beyond keyword binding.",
+       "symbolic reconstruction of the config term + sibling comparison + document-shape substitution + mutation analysis")
+_claim('C20',
+       "C20.R1 typestate of the console level in the verbosity wrapper over all normal and exceptional outcomes; "
+       "C20.R2 None-safety of the saved level; C20.R3 logging is write-only in numeric modules (pure arguments, no "
+       "state reads); C20.R4 decorators are transparent; C20.R5 accessors touch only 'console' handlers of logger 'emd'.",
+       "nothing; logging calls themselves are assumed not to raise.",
+       "typestate walk with exception outcomes and condition correlation; nullness summary; effect/purity scan")
+
 NOT_YET = "rules for this property are not built yet in this round; its check is fail-closed (exit 2), so it is not claimed"
 
 
